@@ -28,6 +28,9 @@ Qed.
 Lemma mem_single_ne p r : p <> r -> mem p [r] = false.
 Proof. intro H. cbn. apply not_eq_sym in H. apply Nat.eqb_neq in H. now rewrite H. Qed.
 
+Lemma held_holds s p : pc s p = LHeld -> holds s p.
+Proof. intro H. unfold holds, holdsb. now rewrite H. Qed.
+
 Section Live.
 Variable cfg : config.
 
@@ -100,8 +103,9 @@ Proof.
     cbv zeta in *. exists (run cfg s (repeat (n, 0) k)). repeat split; try assumption.
     + now apply reachable_run.
     + intros i Hi. destruct (Nat.eq_dec i n) as [Heq|Hne].
-      * subst i. unfold holds, holdsb. now rewrite L.
-      * unfold holds, holdsb. rewrite (O i Hne). apply H. lia.
+      * subst i. apply held_holds. exact L.
+      * assert (Hi' : holds s i) by (apply H; lia). unfold holds, holdsb in *.
+        pose proof (O i Hne) as Oi. cbv beta in Oi. rewrite <- Oi in Hi'. exact Hi'.
     + intros i Hi. rewrite O by lia. apply M. lia.
 Qed.
 
